@@ -310,6 +310,8 @@ class NormalizeCat(Command):
         for raw, normal in zip(raw_values, normal_values):
             result[arr.data == raw] = normal
 
+        result.mask = arr.mask.copy()
+
         return result
 
 
